@@ -26,7 +26,16 @@ pub enum Opt {
     ReplShort,
     /// anything else, verbatim (usage-error scenarios)
     Raw(Vec<String>),
+    /// -t: echo every command line on stderr (must not change anything else)
+    Verbose,
+    /// -P N: accepted and ignored
+    MaxProcs(usize),
+    /// -a FILE: the arguments come from a file (the seam still supplies the bytes; the file
+    /// exists with the same content). With it the children keep xargs' own standard input.
+    ArgFile,
 }
+
+pub const ARG_FILE_NAME: &str = "xargs-arg-file";
 
 #[derive(Clone, Debug, Serialize, Deserialize)]
 pub struct XargsScenario {
@@ -86,6 +95,15 @@ impl XargsScenario {
                 }
                 Opt::X => v.push("-x".into()),
                 Opt::R => v.push("-r".into()),
+                Opt::Verbose => v.push("-t".into()),
+                Opt::MaxProcs(n) => {
+                    v.push("-P".into());
+                    v.push(n.to_string());
+                }
+                Opt::ArgFile => {
+                    v.push("-a".into());
+                    v.push(ARG_FILE_NAME.into());
+                }
                 Opt::Null => v.push("-0".into()),
                 Opt::Delim(d) => {
                     v.push("-d".into());
@@ -150,6 +168,10 @@ pub fn run_xargs_with(sc: &XargsScenario, plan: &[ReadOp], ctx: &mut Ctx) -> Xar
         budget: READ_BUDGET,
     };
     let _ = std::env::set_current_dir(&ctx.scratch);
+    let arg_file = sc.opts.iter().any(|o| matches!(o, Opt::ArgFile));
+    if arg_file {
+        let _ = std::fs::write(ctx.scratch.join(ARG_FILE_NAME), &sc.input.0);
+    }
     if sc.decoy_in_cwd && !sc.cmd.is_empty() && !sc.cmd[0].contains('/') {
         let _ = std::fs::write(ctx.scratch.join(&sc.cmd[0]), b"#!/bin/sh\nexit 0\n");
     } else if !sc.cmd.is_empty() && !sc.cmd[0].contains('/') {
@@ -216,7 +238,8 @@ pub fn run_xargs_with(sc: &XargsScenario, plan: &[ReadOp], ctx: &mut Ctx) -> Xar
     };
     // real children: what is left on fd 0 of this process stands for xargs' own input stream
     // (the arguments themselves come through the seam); a child must not be able to read it
-    let probe_stdin = matches!(sc.real, Some(RealKind::Simchild));
+    // (with -a the children are meant to keep xargs' standard input)
+    let probe_stdin = matches!(sc.real, Some(RealKind::Simchild)) && !arg_file;
     if probe_stdin {
         crate::sys::stdin_marker(b"these bytes stand for xargs' own standard input\n");
     }
@@ -508,6 +531,7 @@ pub fn resolve(opts: &[Opt]) -> Config {
             }
             Opt::X => x = true,
             Opt::R => r = true,
+            Opt::Verbose | Opt::MaxProcs(_) | Opt::ArgFile => {}
             Opt::Null => null = Some(i),
             Opt::Delim(d) => match parse_delim_spelling(d) {
                 Some(b) => delim = Some((i, b)),
